@@ -8,14 +8,18 @@ package c22
 // token ID has not been revoked. Revocation takes effect for every later
 // request whether or not the token was seen before.
 //
-// What is driven. A loopback OIDC provider (net/http/httptest on 127.0.0.1)
-// serves /.well-known/openid-configuration and a JWKS with one RSA-2048 key
-// (kid "rsa-1", listed first) and one EC P-256 key (kid "ec-1"). The real
-// server start-up sequence (srvfix, SQLite user database, so that the
-// revocation store of internal/language/tokens is live) is run with
-// ego.server.oauth.provider pointing at the stub and ego.server.oauth.audience
-// set, so commands/server.go calls oauth.Initialize (discovery + JWKS fetch)
-// exactly as `ego server run` does. JWTs are minted in the harness with
+// What is driven. An in-memory OIDC provider: oauth's HTTP client
+// (client.go: `idpClient = &http.Client{Timeout: 10s}`, no Transport) uses
+// http.DefaultTransport at call time, so the harness installs a RoundTripper
+// there that serves https://idp.c22.example/.well-known/openid-configuration
+// and /jwks (one RSA-2048 key, kid "rsa-1", listed first; one EC P-256 key,
+// kid "ec-1") without any socket. The real server start-up sequence (srvfix,
+// SQLite user database, so that the revocation store of
+// internal/language/tokens is live) runs with ego.server.oauth.provider
+// pointing at that URL, ego.server.oauth.audience set and
+// ego.server.oauth.jwks.cache.ttl set per process (see below), so
+// commands/server.go calls oauth.Initialize (discovery + JWKS fetch) exactly
+// as `ego server run` does. JWTs are minted in the harness with
 // github.com/golang-jwt/jwt/v5 primitives and presented
 //   - directly to oauth.ValidateJWT (what router.Authenticate calls), and
 //   - through router.ServeHTTP to a probe route declared .Authentication(true)
@@ -25,31 +29,58 @@ package c22
 // endpoint) or tokens.Blacklist (what authserver/revoke.go calls), un-revoked
 // through DELETE /admin/tokens/{id} or tokens.Delete, the list is flushed
 // through DELETE /admin/tokens or tokens.Flush, and caches are dropped through
-// DELETE /admin/caches[?class=blacklist] or caches.Purge. Time is real: a
-// loopback HTTP client does not work inside a synctest bubble. Time-dependent
-// steps are therefore expressed as explicit cache purges, and every exp / nbf
-// value is at least 60 s away from "now" so no verdict depends on the clock.
+// DELETE /admin/caches[?class=blacklist] or caches.Purge.
 //
-// Oracle (three-valued, per presentation):
+// Time. Every history runs inside a testing/synctest bubble (DESIGN 1.4, as
+// C21/C24): all rapid draws happen before the bubble, the verdict leaves it as
+// a value; the bubble of the n-th case first sleeps to 2200-01-01 + n*30 days,
+// so every time stamp ego kept from an earlier case (JWKS fetch time, miss
+// refresh time) or from the start-up outside the bubble lies in the past and
+// every case starts with a stale JWKS cache (the first key lookup re-fetches
+// the JWKS through the in-memory transport, inside the bubble). Tokens are
+// minted at the start of the bubble with exp / nbf relative to that instant;
+// "sleep" steps advance virtual time by fixed amounts, to a token's exp or
+// nbf -1s / -1ns / 0 / +1ns / +1s / +61s, to one JWKS/JWT cache TTL -1s / +1s
+// / +61s, or arbitrarily up to 5 h. The JWT result cache is created by
+// oauth.Initialize outside the bubble together with its sweeper goroutine; the
+// setup purges it and waits (real time, once per process, <= ~65 s) until
+// that sweeper has seen the cache gone and exited, and every case then
+// re-creates the cache inside its bubble with caches.SetExpiration(ttl) (the
+// call Initialize makes), so that the sweeper runs on virtual time and cached
+// results really age out. At the end of a bubble the caches are purged and one
+// scan interval is slept so the sweepers exit. A bubble that does not end
+// (real-time watchdog) or deadlocks is a HARNESS-ERROR (exit 2), never a
+// verdict.
+//
+// ego.server.oauth.jwks.cache.ttl is read once by oauth.Initialize, so it is a
+// per-process dimension: shards with an even index run with "1h" (the
+// default), odd shards with "90s" (VERIF_C22_TTL overrides). Token lifetimes
+// (20 s, 90 s, 5 min, 30 min, 1 h, 2 h, 10 y) lie on both sides of both
+// values. The model does not depend on the TTL.
+//
+// Oracle (three-valued, per presentation at virtual time t):
 //   must reject  <= the signature cannot be verified with a published key by
 //                   an allowed algorithm (unpublished key, corrupted, alg none,
 //                   HS256 keyed with a published public key, header alg that
 //                   does not belong to the signature), or iss differs from the
 //                   configured provider, or aud does not contain the configured
-//                   audience (string, list, missing), or exp is past / missing,
-//                   or nbf is in the future, or the jti is on the revocation
-//                   list at that moment.           -> accepted = VIOLATION
+//                   audience (string, list, missing), or exp is missing or
+//                   t > exp, or t < nbf, or the jti is on the revocation list
+//                   at that moment.              -> accepted = VIOLATION
 //   must accept  <= RS256/384/512 by the published RSA key or ES256 by the
 //                   published EC key, kid naming that key, unmodified, iss and
-//                   aud matching, exp >= 5 min ahead, nbf absent or past, jti
-//                   absent or not revoked, non-empty sub. -> rejected = VIOLATION
-//                   (this is the documented behaviour of resource-server mode,
+//                   aud matching, t < exp, nbf absent or t > nbf, jti absent or
+//                   not revoked, non-empty sub.  -> rejected = VIOLATION
+//                   (the documented behaviour of resource-server mode,
 //                   docs/SERVER.md "Ego as an OAuth2 Resource Server"; it also
 //                   keeps the check from being satisfied by a server, or a
 //                   harness, that rejects everything)
-//   either       otherwise: no kid / empty kid (ego picks the first published
-//                   key), kid naming the other published key, PS256 (the
-//                   statement does not say whether RSA-PSS is "allowed"),
+//   either       otherwise: t == exp or t == nbf exactly (jwt.go builds the
+//                   parser without jwt.WithLeeway, so the validator's clock
+//                   skew allowance is 0 and the undecided window is that one
+//                   instant); no kid / empty kid (ego picks the first
+//                   published key), kid naming the other published key, PS256
+//                   (the statement does not say whether RSA-PSS is "allowed"),
 //                   empty sub (no user identity).
 // The statement says "only if"; nbf is not in it, but docs/internals/OAUTH.md
 // ("jwt.go: extract and validate standard claims iss, aud, exp, nbf") and RFC
@@ -57,12 +88,12 @@ package c22
 //
 // Preconditions taken from real callers / documentation:
 //   * The provider setting has no trailing slash and the audience setting is a
-//     single non-empty string (docs/SERVER.md examples); both are fixed for
-//     the process (oauth.Initialize runs once).
-//   * The JWKS is constant (no key rotation); the JWKS key cache itself cannot
-//     be purged from outside the package (resetJWKSCache is unexported), so
-//     "purge the JWKS cache" is not generated; unknown-kid presentations do
-//     drive the refresh path.
+//     single non-empty string (docs/SERVER.md examples); provider, audience and
+//     JWKS TTL are fixed for the process (oauth.Initialize runs once).
+//   * The JWKS is constant (no key rotation). The JWKS key cache cannot be
+//     purged from outside the package, but it lapses by time (TTL) inside the
+//     bubble, and unknown-kid presentations drive the rate-limited refresh.
+//   * exp / nbf are whole seconds (NumericDate), as every IdP issues them.
 //   * jti values are unique per evaluated case, and every case starts from an
 //     empty revocation list and empty JWT / blacklist caches, so no state
 //     leaks between cases.
@@ -73,6 +104,7 @@ package c22
 //     model treats it as still revoked.
 
 import (
+	"bytes"
 	"crypto/ecdsa"
 	"crypto/elliptic"
 	"crypto/rand"
@@ -82,14 +114,17 @@ import (
 	"encoding/json"
 	"encoding/pem"
 	"fmt"
+	"io"
 	"math/big"
 	"net/http"
-	"net/http/httptest"
 	"os"
 	"path/filepath"
+	"runtime"
 	"sort"
+	"strconv"
 	"strings"
 	"testing"
+	"testing/synctest"
 	"time"
 
 	"github.com/golang-jwt/jwt/v5"
@@ -106,7 +141,7 @@ import (
 // ---------------------------------------------------------------- case data
 
 // Tok describes one JWT by classes; the oracle resolves them against the
-// running provider stub (URL, keys, current time).
+// provider stub (URL, keys) and the virtual instant at which the case starts.
 type Tok struct {
 	Key     string `json:"key"`               // rsa-pub | ec-pub | rsa-other | ec-other  (private key that signs)
 	Alg     string `json:"alg"`               // see algs
@@ -114,19 +149,32 @@ type Tok struct {
 	Corrupt string `json:"corrupt,omitempty"` // "" | sig-flip | sig-trunc | payload-swap
 	Iss     string `json:"iss"`               // match | slash | other | missing | upper
 	Aud     string `json:"aud"`               // str | list-has | list-first | list-only | str-other | list-not | missing | empty-list | str-prefix | str-upper
-	Exp     string `json:"exp"`               // future | far | soon | past | just-past | missing
-	Nbf     string `json:"nbf"`               // none | past | future | soon
+	Exp     string `json:"exp"`               // see expOff: lifetime from the start of the case; past | just-past | missing
+	Nbf     string `json:"nbf"`               // none | past | 30s | soon (60s) | 10m | future (1h)
 	Jti     string `json:"jti"`               // none | a | b
 	Sub     string `json:"sub"`               // user | empty
 }
 
+// Adv is a clock advance.
+//
+//	abs: Ns nanoseconds
+//	exp: up to the exp instant of token Tok plus Delta ns (Ns if that is in the past or the token has no exp)
+//	nbf: up to the nbf instant of token Tok plus Delta ns (same fallback)
+//	ttl: one JWKS/JWT cache TTL of this process plus Delta ns
+type Adv struct {
+	Kind  string `json:"kind"`
+	Ns    int64  `json:"ns,omitempty"`
+	Delta int64  `json:"delta,omitempty"`
+}
+
 // Step is one operation of the history.
 type Step struct {
-	Op   string `json:"op"`            // present | revoke | unrevoke | flush | purge
+	Op   string `json:"op"`            // present | revoke | unrevoke | flush | purge | sleep
 	Tok  int    `json:"tok,omitempty"` // index into Toks (mod len)
 	Via  string `json:"via,omitempty"` // present: direct|router; revoke/unrevoke/flush: rest|direct
 	What string `json:"what,omitempty"`
 	// purge: jwt | blacklist | blacklist-rest | all-rest
+	Adv *Adv `json:"adv,omitempty"` // sleep
 }
 
 type Case struct {
@@ -136,8 +184,10 @@ type Case struct {
 
 const (
 	maxToks  = 3
-	maxSteps = 10
+	maxSteps = 12
 	audience = "ego-api"
+	issuer   = "https://idp.c22.example"
+	scanNs   = int64(60 * time.Second)
 )
 
 var (
@@ -149,11 +199,16 @@ var (
 	corrAll  = []string{"", "sig-flip", "sig-trunc", "payload-swap"}
 	issAll   = []string{"match", "slash", "other", "missing", "upper"}
 	audAll   = []string{"str", "list-has", "list-first", "list-only", "str-other", "list-not", "missing", "empty-list", "str-prefix", "str-upper"}
-	expAll   = []string{"future", "far", "soon", "past", "just-past", "missing"}
-	nbfAll   = []string{"none", "past", "future", "soon"}
+	expAll   = []string{"20s", "90s", "soon", "30m", "future", "2h", "far", "past", "just-past", "missing"}
+	nbfAll   = []string{"none", "past", "30s", "soon", "10m", "future"}
 	jtiAll   = []string{"none", "a", "b"}
 	subAll   = []string{"user", "empty"}
 	purgeAll = []string{"jwt", "blacklist", "blacklist-rest", "all-rest"}
+
+	// offsets from the start of the case
+	expOff = map[string]time.Duration{"20s": 20 * time.Second, "90s": 90 * time.Second, "soon": 5 * time.Minute, "30m": 30 * time.Minute,
+		"future": time.Hour, "2h": 2 * time.Hour, "far": 10 * 365 * 24 * time.Hour, "past": -time.Hour, "just-past": -time.Second}
+	nbfOff = map[string]time.Duration{"past": -time.Minute, "30s": 30 * time.Second, "soon": 60 * time.Second, "10m": 10 * time.Minute, "future": time.Hour}
 )
 
 func in(s string, l []string) bool {
@@ -168,18 +223,18 @@ func in(s string, l []string) bool {
 // ---------------------------------------------------------------- generator
 
 func genTok(t *rapid.T) Tok {
-	tk := Tok{Kid: "own", Iss: "match", Exp: "future", Nbf: "none", Sub: "user"}
+	tk := Tok{Kid: "own", Iss: "match", Sub: "user"}
 	if rapid.Bool().Draw(t, "ec") {
 		tk.Key, tk.Alg = "ec-pub", "ES256"
 	} else {
 		tk.Key, tk.Alg = "rsa-pub", rapid.SampledFrom([]string{"RS256", "RS256", "RS256", "RS384", "RS512"}).Draw(t, "rsalg")
 	}
 	tk.Aud = rapid.SampledFrom([]string{"str", "str", "list-has", "list-first", "list-only"}).Draw(t, "audOK")
-	tk.Nbf = rapid.SampledFrom([]string{"none", "none", "past"}).Draw(t, "nbfOK")
-	tk.Exp = rapid.SampledFrom([]string{"future", "future", "far", "soon"}).Draw(t, "expOK")
+	tk.Nbf = rapid.SampledFrom([]string{"none", "none", "none", "past", "30s", "soon", "10m"}).Draw(t, "nbfOK")
+	tk.Exp = rapid.SampledFrom([]string{"20s", "90s", "soon", "soon", "30m", "future", "future", "2h", "far"}).Draw(t, "expOK")
 	tk.Jti = rapid.SampledFrom([]string{"a", "a", "a", "b", "none"}).Draw(t, "jti")
 
-	flaws := rapid.SampledFrom([]int{0, 0, 0, 0, 0, 1, 1, 1, 1, 2}).Draw(t, "flaws")
+	flaws := rapid.SampledFrom([]int{0, 0, 0, 0, 0, 0, 1, 1, 1, 2}).Draw(t, "flaws")
 	for i := 0; i < flaws; i++ {
 		switch rapid.IntRange(0, 8).Draw(t, "dim") {
 		case 0: // signing key
@@ -207,7 +262,7 @@ func genTok(t *rapid.T) Tok {
 		case 6:
 			tk.Exp = rapid.SampledFrom([]string{"past", "just-past", "missing"}).Draw(t, "exp")
 		case 7:
-			tk.Nbf = rapid.SampledFrom([]string{"future", "soon"}).Draw(t, "nbf")
+			tk.Nbf = rapid.SampledFrom([]string{"future", "10m"}).Draw(t, "nbf")
 		case 8:
 			tk.Sub = "empty"
 		}
@@ -215,10 +270,28 @@ func genTok(t *rapid.T) Tok {
 	return tk
 }
 
+func genAdv(t *rapid.T) *Adv {
+	switch k := rapid.IntRange(0, 19).Draw(t, "advClass"); {
+	case k < 4:
+		return &Adv{Kind: "abs", Ns: rapid.SampledFrom([]int64{1, int64(time.Second), int64(19 * time.Second), int64(30 * time.Second), int64(59 * time.Second),
+			int64(61 * time.Second), int64(2 * time.Minute), int64(10 * time.Minute), int64(time.Hour)}).Draw(t, "ns")}
+	case k < 11: // aimed at the exp of a token
+		return &Adv{Kind: "exp", Delta: rapid.SampledFrom([]int64{-int64(time.Second), -1, 0, 1, 1, int64(time.Second), int64(time.Second), int64(61 * time.Second)}).Draw(t, "delta"),
+			Ns: rapid.SampledFrom([]int64{0, int64(time.Second), int64(30 * time.Second)}).Draw(t, "fallback")}
+	case k < 14: // aimed at the nbf of a token
+		return &Adv{Kind: "nbf", Delta: rapid.SampledFrom([]int64{-int64(time.Second), -1, 0, 1, int64(time.Second)}).Draw(t, "delta"),
+			Ns: rapid.SampledFrom([]int64{0, int64(time.Second), int64(30 * time.Second)}).Draw(t, "fallback")}
+	case k < 17: // one cache TTL
+		return &Adv{Kind: "ttl", Delta: rapid.SampledFrom([]int64{-int64(time.Second), int64(time.Second), int64(61 * time.Second)}).Draw(t, "delta")}
+	default:
+		return &Adv{Kind: "abs", Ns: rapid.Int64Range(0, int64(5*time.Hour)).Draw(t, "any")}
+	}
+}
+
 func genStep(t *rapid.T, ntok int) Step {
 	tok := rapid.IntRange(0, ntok-1).Draw(t, "tok")
-	switch k := rapid.IntRange(0, 19).Draw(t, "op"); {
-	case k < 9:
+	switch k := rapid.IntRange(0, 24).Draw(t, "op"); {
+	case k < 10:
 		return Step{Op: "present", Tok: tok, Via: rapid.SampledFrom([]string{"direct", "direct", "router"}).Draw(t, "via")}
 	case k < 13:
 		return Step{Op: "revoke", Tok: tok, Via: rapid.SampledFrom([]string{"rest", "direct"}).Draw(t, "via")}
@@ -226,8 +299,10 @@ func genStep(t *rapid.T, ntok int) Step {
 		return Step{Op: "unrevoke", Tok: tok, Via: rapid.SampledFrom([]string{"rest", "direct"}).Draw(t, "via")}
 	case k < 16:
 		return Step{Op: "flush", Via: rapid.SampledFrom([]string{"rest", "direct"}).Draw(t, "via")}
-	default:
+	case k < 19:
 		return Step{Op: "purge", What: rapid.SampledFrom([]string{"jwt", "jwt", "jwt", "blacklist", "blacklist-rest", "all-rest"}).Draw(t, "what")}
+	default:
+		return Step{Op: "sleep", Tok: tok, Adv: genAdv(t)}
 	}
 }
 
@@ -237,11 +312,12 @@ func genCase(t *rapid.T) Case {
 	for i := 0; i < n; i++ {
 		c.Toks = append(c.Toks, genTok(t))
 	}
-	if rapid.IntRange(0, 9).Draw(t, "template") < 4 {
+	via := func(l string) string { return rapid.SampledFrom([]string{"direct", "router"}).Draw(t, l) }
+	switch k := rapid.IntRange(0, 9).Draw(t, "template"); {
+	case k < 3:
 		// the history the statement's second sentence is about: revoke, then a
 		// presentation with or without an earlier sighting and with or without
 		// a cache purge in between
-		via := func(l string) string { return rapid.SampledFrom([]string{"direct", "router"}).Draw(t, l) }
 		if rapid.Bool().Draw(t, "seenBefore") {
 			c.Steps = append(c.Steps, Step{Op: "present", Tok: 0, Via: via("v0")})
 		}
@@ -250,8 +326,32 @@ func genCase(t *rapid.T) Case {
 			c.Steps = append(c.Steps, Step{Op: "purge", What: rapid.SampledFrom(purgeAll).Draw(t, "pw")})
 		}
 		c.Steps = append(c.Steps, Step{Op: "present", Tok: 0, Via: via("v1")})
+	case k < 6:
+		// the same token before and after its exp, with or without the cached
+		// result still there
+		c.Steps = append(c.Steps, Step{Op: "present", Tok: 0, Via: via("v0")})
+		if rapid.IntRange(0, 3).Draw(t, "early") == 0 {
+			c.Steps = append(c.Steps, Step{Op: "sleep", Tok: 0, Adv: &Adv{Kind: "exp", Delta: rapid.SampledFrom([]int64{-int64(time.Second), -1}).Draw(t, "d0")}},
+				Step{Op: "present", Tok: 0, Via: via("v1")})
+		}
+		c.Steps = append(c.Steps, Step{Op: "sleep", Tok: 0, Adv: &Adv{Kind: "exp", Delta: rapid.SampledFrom([]int64{1, 1, int64(time.Second), int64(61 * time.Second)}).Draw(t, "d1")}})
+		if rapid.IntRange(0, 3).Draw(t, "purgeAfter") == 0 {
+			c.Steps = append(c.Steps, Step{Op: "purge", What: "jwt"})
+		}
+		c.Steps = append(c.Steps, Step{Op: "present", Tok: 0, Via: via("v2")})
+	case k < 7:
+		// nbf crossing
+		c.Steps = append(c.Steps, Step{Op: "present", Tok: 0, Via: via("v0")},
+			Step{Op: "sleep", Tok: 0, Adv: &Adv{Kind: "nbf", Delta: rapid.SampledFrom([]int64{-1, 1, 1, int64(time.Second)}).Draw(t, "d0"), Ns: int64(time.Second)}},
+			Step{Op: "present", Tok: 0, Via: via("v1")})
+	case k < 8:
+		// cached result ages out (one TTL and a sweep), then presented again
+		c.Steps = append(c.Steps, Step{Op: "present", Tok: 0, Via: via("v0")},
+			Step{Op: "sleep", Adv: &Adv{Kind: "ttl", Delta: rapid.SampledFrom([]int64{-int64(time.Second), int64(time.Second), int64(61 * time.Second)}).Draw(t, "d0")}},
+			Step{Op: "present", Tok: 0, Via: via("v1")})
 	}
-	tail := rapid.IntRange(0, maxSteps-len(c.Steps)).Draw(t, "tail")
+	room := maxSteps - len(c.Steps)
+	tail := rapid.IntRange(0, room).Draw(t, "tail")
 	if len(c.Steps) == 0 && tail == 0 {
 		tail = 1
 	}
@@ -265,22 +365,81 @@ func genCase(t *rapid.T) Case {
 
 type fixture struct {
 	srv      *srvfix.Fixture
-	idp      *httptest.Server
-	issuer   string
+	t        *testing.T
 	rsaPub   *rsa.PrivateKey
 	rsaOther *rsa.PrivateKey
 	ecPub    *ecdsa.PrivateKey
 	ecOther  *ecdsa.PrivateKey
 	jwksHits int
 	seq      int
+	ttl      time.Duration
+	// sweeperOutside: the JWT cache sweeper that oauth.Initialize started
+	// outside the bubble could not be seen to exit; cached results then never
+	// age out on virtual time (weaker coverage, no effect on verdicts).
+	sweeperOutside bool
 }
 
 var fx *fixture
 
 func b64(b []byte) string { return base64.RawURLEncoding.EncodeToString(b) }
 
+// idpTransport is the in-memory identity provider.
+type idpTransport struct{ f *fixture }
+
+func (tr idpTransport) RoundTrip(r *http.Request) (*http.Response, error) {
+	f := tr.f
+	reply := func(code int, v any) (*http.Response, error) {
+		b, _ := json.Marshal(v)
+		return &http.Response{StatusCode: code, Status: strconv.Itoa(code) + " " + http.StatusText(code), Proto: "HTTP/1.1", ProtoMajor: 1, ProtoMinor: 1,
+			Header: http.Header{"Content-Type": []string{"application/json"}}, Body: io.NopCloser(bytes.NewReader(b)), ContentLength: int64(len(b)), Request: r}, nil
+	}
+	if r.URL.Scheme+"://"+r.URL.Host != issuer {
+		return nil, fmt.Errorf("c22: no network in this harness (%s)", r.URL)
+	}
+	switch r.URL.Path {
+	case "/.well-known/openid-configuration":
+		return reply(200, map[string]any{
+			"issuer":                 issuer,
+			"authorization_endpoint": issuer + "/authorize",
+			"token_endpoint":         issuer + "/token",
+			"userinfo_endpoint":      issuer + "/userinfo",
+			"jwks_uri":               issuer + "/jwks",
+		})
+	case "/jwks":
+		f.jwksHits++
+		ecBytes := func(v *big.Int) []byte { return v.FillBytes(make([]byte, 32)) }
+		return reply(200, map[string]any{"keys": []map[string]any{
+			{"kty": "RSA", "kid": "rsa-1", "use": "sig", "alg": "RS256",
+				"n": b64(f.rsaPub.N.Bytes()), "e": b64(big.NewInt(int64(f.rsaPub.E)).Bytes())},
+			{"kty": "EC", "kid": "ec-1", "use": "sig", "alg": "ES256", "crv": "P-256",
+				"x": b64(ecBytes(f.ecPub.X)), "y": b64(ecBytes(f.ecPub.Y))},
+		}})
+	}
+	return reply(404, map[string]any{"error": "not found"})
+}
+
+// jwtSweeperAlive reports whether a goroutine is running caches.expire for
+// the JWT result cache (its first argument is the cache class).
+func jwtSweeperAlive() (alive, readable bool) {
+	buf := make([]byte, 1<<20)
+	buf = buf[:runtime.Stack(buf, true)]
+	needle := fmt.Sprintf("internal/caches.expire(%#x", caches.OAuthJWTCache)
+	for _, l := range strings.Split(string(buf), "\n") {
+		if strings.Contains(l, "internal/caches.expire(") {
+			readable = true
+			if strings.HasPrefix(strings.TrimSpace(l), "github.com/tucats/ego/"+needle) {
+				rest := strings.TrimPrefix(strings.TrimSpace(l), "github.com/tucats/ego/"+needle)
+				if rest == "" || rest[0] == ',' || rest[0] == ')' || rest[0] == '?' {
+					alive = true
+				}
+			}
+		}
+	}
+	return alive, readable
+}
+
 func setup(t *testing.T) *fixture {
-	f := &fixture{}
+	f := &fixture{t: t}
 	var err error
 	must := func(e error) {
 		if e != nil {
@@ -296,38 +455,32 @@ func setup(t *testing.T) *fixture {
 	f.ecOther, err = ecdsa.GenerateKey(elliptic.P256(), rand.Reader)
 	must(err)
 
-	mux := http.NewServeMux()
-	f.idp = httptest.NewServer(mux) // listens on 127.0.0.1
-	f.issuer = f.idp.URL
-	mux.HandleFunc("/.well-known/openid-configuration", func(w http.ResponseWriter, r *http.Request) {
-		w.Header().Set("Content-Type", "application/json")
-		_ = json.NewEncoder(w).Encode(map[string]any{
-			"issuer":                 f.issuer,
-			"authorization_endpoint": f.issuer + "/authorize",
-			"token_endpoint":         f.issuer + "/token",
-			"userinfo_endpoint":      f.issuer + "/userinfo",
-			"jwks_uri":               f.issuer + "/jwks",
-		})
-	})
-	ecBytes := func(v *big.Int) []byte { return v.FillBytes(make([]byte, 32)) }
-	mux.HandleFunc("/jwks", func(w http.ResponseWriter, r *http.Request) {
-		f.jwksHits++
-		w.Header().Set("Content-Type", "application/json")
-		_ = json.NewEncoder(w).Encode(map[string]any{"keys": []map[string]any{
-			{"kty": "RSA", "kid": "rsa-1", "use": "sig", "alg": "RS256",
-				"n": b64(f.rsaPub.N.Bytes()), "e": b64(big.NewInt(int64(f.rsaPub.E)).Bytes())},
-			{"kty": "EC", "kid": "ec-1", "use": "sig", "alg": "ES256", "crv": "P-256",
-				"x": b64(ecBytes(f.ecPub.X)), "y": b64(ecBytes(f.ecPub.Y))},
-		}})
-	})
+	// oauth's idpClient has no Transport of its own: it uses this one.
+	http.DefaultTransport = idpTransport{f}
+
+	ttl := "1h"
+	if vkit.ShardIndex()%2 == 1 {
+		ttl = "90s"
+	}
+	if v := os.Getenv("VERIF_C22_TTL"); v != "" {
+		ttl = v
+	}
+	f.ttl, err = time.ParseDuration(ttl)
+	must(err)
 
 	f.srv, err = srvfix.Start(srvfix.Options{UserStore: "sqlite", Settings: map[string]string{
-		defs.OAuthProviderSetting: f.issuer,
-		defs.OAuthAudienceSetting: audience,
-		defs.OAuthClientIDSetting: "c22-client",
-		defs.OAuthModeSetting:     "hybrid",
+		defs.OAuthProviderSetting:     issuer,
+		defs.OAuthAudienceSetting:     audience,
+		defs.OAuthClientIDSetting:     "c22-client",
+		defs.OAuthModeSetting:         "hybrid",
+		defs.OAuthJWKSCacheTTLSetting: ttl,
 	}})
 	must(err)
+	started := time.Now()
+	// From here on nothing outside a bubble may touch the JWT result cache:
+	// Initialize created it (SetExpiration) with a sweeper on the real clock.
+	caches.Purge(caches.OAuthJWTCache)
+
 	if !oauth.IsEnabled() {
 		t.Fatalf("harness: resource-server mode is not enabled after start-up")
 	}
@@ -340,6 +493,15 @@ func setup(t *testing.T) *fixture {
 		return http.StatusOK
 	}, http.MethodGet).Authentication(true)
 
+	// Warm-up outside any bubble (DESIGN 1.4c): the rate-limit pruner (Basic
+	// credentials), request bookkeeping, the revocation store's first database
+	// connection. None of this creates the JWT or the blacklist cache.
+	if r := f.admin("GET", "/admin/tokens/", ""); r.Status != 200 {
+		t.Fatalf("harness: warm-up GET /admin/tokens with Basic admin credentials: %d %s", r.Status, r.Body)
+	}
+	if r := f.srv.Do(srvfix.Request{Method: "GET", Path: "/c22/probe", Header: srvfix.Bearer("not-a-token")}); r.Status != 403 && r.Status != 401 {
+		t.Fatalf("harness: warm-up GET /c22/probe with a garbage bearer: %d %s", r.Status, r.Body)
+	}
 	// The revocation store must be live, otherwise every revocation is a no-op
 	// and the check would blame ego for a harness mistake.
 	must(tokens.Blacklist("c22-selftest"))
@@ -350,24 +512,44 @@ func setup(t *testing.T) *fixture {
 	}
 	_, err = tokens.Flush()
 	must(err)
+	if n := caches.Size(caches.OAuthJWTCache) + caches.Size(caches.BlacklistCache); n != 0 {
+		t.Fatalf("harness: the warm-up populated the JWT / blacklist cache (%d entries)", n)
+	}
 
-	// And a plainly valid token must be accepted both ways.
-	good := Tok{Key: "rsa-pub", Alg: "RS256", Kid: "own", Iss: "match", Aud: "str", Exp: "future", Nbf: "none", Jti: "none", Sub: "user"}
-	s, err := f.mint(good, "selftest")
-	must(err)
-	if _, _, e := oauth.ValidateJWT(0, s); e != nil {
-		t.Fatalf("harness: a valid RS256 token is rejected by ValidateJWT: %v", e)
+	// Wait until the outside sweeper of the JWT cache has met its next scan
+	// (60 s after Initialize created the cache), found the cache gone and
+	// exited, so that the next sweeper is born inside a bubble.
+	if alive, readable := jwtSweeperAlive(); alive || !readable {
+		deadline := started.Add(100 * time.Second)
+		for time.Now().Before(deadline) {
+			time.Sleep(500 * time.Millisecond)
+			if time.Since(started) < 58*time.Second {
+				continue
+			}
+			alive, readable = jwtSweeperAlive()
+			if !alive && (readable || time.Since(started) > 65*time.Second) {
+				break
+			}
+		}
+		if alive, _ := jwtSweeperAlive(); alive {
+			f.sweeperOutside = true
+		}
 	}
-	if o := f.present(s, "router"); o != "accepted" {
-		t.Fatalf("harness: a valid RS256 token through the probe route: %s", o)
+
+	// A plainly valid token must be accepted both ways, a revoked one rejected.
+	good := Tok{Key: "rsa-pub", Alg: "RS256", Kid: "own", Iss: "match", Aud: "str", Exp: "future", Nbf: "none", Jti: "a", Sub: "user"}
+	fx = f
+	out := oracle(Case{Toks: []Tok{good}, Steps: []Step{{Op: "present", Via: "direct"}, {Op: "present", Via: "router"},
+		{Op: "purge", What: "jwt"}, {Op: "present", Via: "router"}, {Op: "revoke", Via: "direct"}, {Op: "present", Via: "direct"}}})
+	if out.Fail != nil || out.Skip != "" || out.Inconclusive != "" {
+		t.Fatalf("harness: self-test history (valid RS256 token accepted, then revoked and rejected) did not hold: %+v %s %s", out.Fail, out.Skip, out.Inconclusive)
 	}
-	caches.Purge(caches.OAuthJWTCache)
 	return f
 }
 
-// mint builds the JWT string of tk. tag makes jti / sub unique per evaluation.
-func (f *fixture) mint(tk Tok, tag string) (string, error) {
-	now := time.Now()
+// mint builds the JWT string of tk at the instant now (the start of the case,
+// a whole second). tag makes jti / sub unique per evaluation.
+func (f *fixture) mint(tk Tok, tag string, now time.Time) (string, error) {
 	claims := map[string]any{"iat": now.Add(-10 * time.Second).Unix(), "scope": "ego:read"}
 	switch tk.Sub {
 	case "user":
@@ -376,13 +558,13 @@ func (f *fixture) mint(tk Tok, tag string) (string, error) {
 	}
 	switch tk.Iss {
 	case "match":
-		claims["iss"] = f.issuer
+		claims["iss"] = issuer
 	case "slash":
-		claims["iss"] = f.issuer + "/"
+		claims["iss"] = issuer + "/"
 	case "other":
 		claims["iss"] = "http://127.0.0.1:1/other-issuer"
 	case "upper":
-		claims["iss"] = strings.ToUpper(f.issuer)
+		claims["iss"] = strings.ToUpper(issuer)
 	case "missing":
 	}
 	switch tk.Aud {
@@ -406,26 +588,11 @@ func (f *fixture) mint(tk Tok, tag string) (string, error) {
 		claims["aud"] = strings.ToUpper(audience)
 	case "missing":
 	}
-	switch tk.Exp {
-	case "future":
-		claims["exp"] = now.Add(time.Hour).Unix()
-	case "far":
-		claims["exp"] = now.Add(10 * 365 * 24 * time.Hour).Unix()
-	case "soon":
-		claims["exp"] = now.Add(5 * time.Minute).Unix()
-	case "past":
-		claims["exp"] = now.Add(-time.Hour).Unix()
-	case "just-past":
-		claims["exp"] = now.Add(-60 * time.Second).Unix()
-	case "missing":
+	if off, ok := expOff[tk.Exp]; ok {
+		claims["exp"] = now.Add(off).Unix()
 	}
-	switch tk.Nbf {
-	case "past":
-		claims["nbf"] = now.Add(-time.Minute).Unix()
-	case "future":
-		claims["nbf"] = now.Add(time.Hour).Unix()
-	case "soon":
-		claims["nbf"] = now.Add(60 * time.Second).Unix()
+	if off, ok := nbfOff[tk.Nbf]; ok {
+		claims["nbf"] = now.Add(off).Unix()
 	}
 	if tk.Jti != "none" {
 		claims["jti"] = tag + "-" + tk.Jti
@@ -588,8 +755,8 @@ func sigClass(tk Tok) string {
 	return "ok"
 }
 
-// staticReason returns the first reason, other than revocation, for which
-// the statement requires rejection ("" if none).
+// staticReason returns the first reason that does not depend on time or on
+// the revocation list for which the statement requires rejection ("" if none).
 func staticReason(tk Tok) string {
 	if s := sigClass(tk); strings.HasPrefix(s, "bad:") {
 		return strings.TrimPrefix(s, "bad:")
@@ -600,13 +767,32 @@ func staticReason(tk Tok) string {
 	if !in(tk.Aud, []string{"str", "list-has", "list-first", "list-only"}) {
 		return "aud=" + tk.Aud
 	}
-	if !in(tk.Exp, []string{"future", "far", "soon"}) {
-		return "exp=" + tk.Exp
-	}
-	if in(tk.Nbf, []string{"future", "soon"}) {
-		return "nbf=" + tk.Nbf
+	if tk.Exp == "missing" {
+		return "exp=missing"
 	}
 	return ""
+}
+
+// timeReason judges exp and nbf at t (ns since the start of the case):
+// reason != "" means must reject; undecided means t is exactly exp or nbf.
+func timeReason(tk Tok, t int64) (reason string, undecided bool) {
+	if off, ok := expOff[tk.Exp]; ok {
+		switch {
+		case t > int64(off):
+			return "expired", false
+		case t == int64(off):
+			undecided = true
+		}
+	}
+	if off, ok := nbfOff[tk.Nbf]; ok {
+		switch {
+		case t < int64(off):
+			return "not yet valid (nbf)", false
+		case t == int64(off):
+			undecided = true
+		}
+	}
+	return "", undecided
 }
 
 // reasonClass shortens a reason to its dimension for the label histogram.
@@ -620,7 +806,7 @@ func reasonClass(reason string) string {
 	return strings.SplitN(reason, "=", 2)[0]
 }
 
-// clean: with no revocation the token must be accepted.
+// clean: apart from time and revocation the token must be accepted.
 func clean(tk Tok) bool {
 	if staticReason(tk) != "" || sigClass(tk) != "ok" || tk.Sub != "user" {
 		return false
@@ -663,6 +849,11 @@ func validCase(c Case) string {
 			if !in(s.What, purgeAll) {
 				return "bad purge class"
 			}
+		case "sleep":
+			if s.Adv == nil || !in(s.Adv.Kind, []string{"abs", "exp", "nbf", "ttl"}) || s.Adv.Ns < 0 || s.Adv.Ns > int64(100*time.Hour) ||
+				s.Adv.Delta < -int64(time.Hour) || s.Adv.Delta > int64(time.Hour) {
+				return "bad sleep"
+			}
 		default:
 			return "unknown op"
 		}
@@ -675,24 +866,73 @@ func validCase(c Case) string {
 
 // ---------------------------------------------------------------- oracle
 
+var bubbleBase = time.Date(2200, 1, 1, 0, 0, 0, 0, time.UTC)
+
+const watchdogS = 900
+
 func oracle(c Case) vkit.Outcome {
 	if why := validCase(c); why != "" {
 		return vkit.Outcome{Skip: why}
 	}
 	f := fx
 	f.seq++
-	tag := fmt.Sprintf("c22-%d", f.seq)
-
-	// isolation: empty list, empty caches
+	// outside the bubble: an empty list (the caches were purged by the
+	// previous case's epilogue)
 	if _, err := tokens.Flush(); err != nil {
 		return vkit.Outcome{Inconclusive: "cannot flush the revocation store"}
 	}
-	caches.Purge(caches.OAuthJWTCache)
-	caches.Purge(caches.BlacklistCache)
+	wd := time.AfterFunc(watchdogS*time.Second, func() {
+		fmt.Printf("HARNESS-ERROR property=C22 a synctest bubble did not end within %ds (a goroutine started inside it never exits)\n", watchdogS)
+		os.Exit(2)
+	})
+	defer wd.Stop()
+
+	epoch := bubbleBase.Add(time.Duration(f.seq) * 30 * 24 * time.Hour)
+	var out vkit.Outcome
+	func() {
+		defer func() {
+			if p := recover(); p != nil {
+				// synctest reports a bubble it cannot finish by panicking out of
+				// Test: the harness's problem, never a verdict
+				fmt.Printf("HARNESS-ERROR property=C22 synctest: %v\n", p)
+				os.Exit(2)
+			}
+		}()
+		synctest.Test(f.t, func(*testing.T) {
+			defer func() {
+				if p := recover(); p != nil {
+					out = vkit.Outcome{Fail: &vkit.Failure{Sig: "panic inside the bubble", Observed: fmt.Sprint(p), Expected: "no panic"}}
+				}
+				// epilogue (DESIGN 1.4c): leave nothing behind
+				caches.Purge(caches.OAuthJWTCache)
+				caches.Purge(caches.BlacklistCache)
+				caches.Purge(caches.AuthCache)
+				caches.Purge(caches.TokenCache)
+				time.Sleep(time.Duration(scanNs) + time.Second)
+				synctest.Wait()
+			}()
+			time.Sleep(time.Until(epoch))
+			out = f.execute(c)
+		})
+	}()
+	return out
+}
+
+// execute runs inside the bubble.
+func (f *fixture) execute(c Case) vkit.Outcome {
+	start := time.Now()
+	now := func() int64 { return int64(time.Since(start)) }
+	tag := fmt.Sprintf("c22-%d", f.seq)
+
+	// the state right after start-up: the JWT result cache exists with the
+	// configured lifetime (oauth.Initialize: caches.SetExpiration)
+	if err := caches.SetExpiration(caches.OAuthJWTCache, fmt.Sprintf("%.0fs", f.ttl.Seconds())); err != nil {
+		return vkit.Outcome{Inconclusive: "cannot set the JWT cache lifetime"}
+	}
 
 	strs := make([]string, len(c.Toks))
 	for i, tk := range c.Toks {
-		s, err := f.mint(tk, tag)
+		s, err := f.mint(tk, tag, start)
 		if err != nil {
 			return vkit.Outcome{Skip: "cannot mint: " + err.Error()}
 		}
@@ -705,8 +945,17 @@ func oracle(c Case) vkit.Outcome {
 		return tag + "-" + c.Toks[i].Jti
 	}
 
+	type tstate struct {
+		acceptedBeforeExp bool  // accepted at some t < exp
+		rejectedBeforeNbf bool  // presented at some t < nbf
+		cached            bool  // accepted and no purge of the JWT cache since
+		lastAccept        int64 // instant of the last acceptance (-1 none)
+	}
+	st := make([]tstate, len(c.Toks))
+	for i := range st {
+		st[i].lastAccept = -1
+	}
 	revoked := map[string]bool{}
-	everRevoked := map[string]bool{}
 	unrevoked := map[string]bool{}
 	labels := map[string]bool{}
 	var trace []string
@@ -714,6 +963,18 @@ func oracle(c Case) vkit.Outcome {
 	var out vkit.Outcome
 	var firstFail *vkit.Failure
 
+	note := func(format string, a ...any) {
+		trace = append(trace, fmt.Sprintf("t=%v ", time.Duration(now()))+fmt.Sprintf(format, a...))
+		if len(trace) > 60 {
+			trace = append([]string{"..."}, trace[len(trace)-45:]...)
+		}
+	}
+	finish := func() vkit.Outcome {
+		out.NonTrivial = nonTrivial
+		out.Labels = labelList(labels, nonTrivial)
+		out.Fail = firstFail
+		return out
+	}
 	syncCheck := func() string {
 		l, err := tokens.List()
 		if err != nil {
@@ -735,42 +996,46 @@ func oracle(c Case) vkit.Outcome {
 		}
 		return ""
 	}
+	dropCached := func() {
+		for i := range st {
+			st[i].cached = false
+		}
+	}
 
-	for si, st := range c.Steps {
-		ti := st.Tok % len(c.Toks)
+	for si, stp := range c.Steps {
+		ti := stp.Tok % len(c.Toks)
 		tk := c.Toks[ti]
-		switch st.Op {
+		switch stp.Op {
 		case "revoke":
 			id := jtiOf(ti)
 			if id == "" {
 				labels["revoke of a token without jti (no-op)"] = true
-				trace = append(trace, fmt.Sprintf("#%d revoke tok%d: no jti", si, ti))
+				note("#%d revoke tok%d: no jti", si, ti)
 				continue
 			}
 			if revoked[id] {
 				labels["second revoke of the same jti"] = true
 			}
-			if st.Via == "rest" {
+			if stp.Via == "rest" {
 				b, _ := json.Marshal([]string{id})
 				r := f.admin("PUT", "/admin/tokens/", string(b))
-				trace = append(trace, fmt.Sprintf("#%d PUT /admin/tokens [%s] -> %d", si, jtiName(ti, tk), r.Status))
+				note("#%d PUT /admin/tokens [%s] -> %d", si, jtiName(ti, tk), r.Status)
 			} else {
 				err := tokens.Blacklist(id)
-				trace = append(trace, fmt.Sprintf("#%d tokens.Blacklist(%s) -> %v", si, jtiName(ti, tk), err))
+				note("#%d tokens.Blacklist(%s) -> %v", si, jtiName(ti, tk), err)
 			}
 			revoked[id] = true
-			everRevoked[id] = true
 		case "unrevoke":
 			id := jtiOf(ti)
 			if id == "" {
 				continue
 			}
-			if st.Via == "rest" {
+			if stp.Via == "rest" {
 				r := f.admin("DELETE", "/admin/tokens/"+id, "")
-				trace = append(trace, fmt.Sprintf("#%d DELETE /admin/tokens/{%s} -> %d", si, jtiName(ti, tk), r.Status))
+				note("#%d DELETE /admin/tokens/{%s} -> %d", si, jtiName(ti, tk), r.Status)
 			} else {
 				err := tokens.Delete(id)
-				trace = append(trace, fmt.Sprintf("#%d tokens.Delete(%s) -> %v", si, jtiName(ti, tk), err))
+				note("#%d tokens.Delete(%s) -> %v", si, jtiName(ti, tk), err)
 			}
 			if revoked[id] {
 				unrevoked[id] = true
@@ -778,12 +1043,12 @@ func oracle(c Case) vkit.Outcome {
 			}
 			delete(revoked, id)
 		case "flush":
-			if st.Via == "rest" {
+			if stp.Via == "rest" {
 				r := f.admin("DELETE", "/admin/tokens/", "")
-				trace = append(trace, fmt.Sprintf("#%d DELETE /admin/tokens -> %d", si, r.Status))
+				note("#%d DELETE /admin/tokens -> %d", si, r.Status)
 			} else {
 				_, err := tokens.Flush()
-				trace = append(trace, fmt.Sprintf("#%d tokens.Flush -> %v", si, err))
+				note("#%d tokens.Flush -> %v", si, err)
 			}
 			for id := range revoked {
 				unrevoked[id] = true
@@ -791,57 +1056,143 @@ func oracle(c Case) vkit.Outcome {
 			}
 			revoked = map[string]bool{}
 		case "purge":
-			switch st.What {
+			switch stp.What {
 			case "jwt":
 				caches.Purge(caches.OAuthJWTCache)
+				dropCached()
 			case "blacklist":
 				caches.Purge(caches.BlacklistCache)
 			case "blacklist-rest":
 				r := f.admin("DELETE", "/admin/caches?class=blacklist", "")
 				if r.Status != 200 {
-					return vkit.Outcome{Inconclusive: "cache purge endpoint failed"}
+					out.Inconclusive = "cache purge endpoint failed"
+					return finish()
 				}
 			case "all-rest":
 				r := f.admin("DELETE", "/admin/caches", "")
 				if r.Status != 200 {
-					return vkit.Outcome{Inconclusive: "cache purge endpoint failed"}
+					out.Inconclusive = "cache purge endpoint failed"
+					return finish()
+				}
+				dropCached()
+			}
+			note("#%d purge %s", si, stp.What)
+			continue
+		case "sleep":
+			d := stp.Adv.Ns
+			switch stp.Adv.Kind {
+			case "exp":
+				if off, ok := expOff[tk.Exp]; ok && int64(off)+stp.Adv.Delta >= now() {
+					d = int64(off) + stp.Adv.Delta - now()
+				}
+			case "nbf":
+				if off, ok := nbfOff[tk.Nbf]; ok && int64(off)+stp.Adv.Delta >= now() {
+					d = int64(off) + stp.Adv.Delta - now()
+				}
+			case "ttl":
+				d = int64(f.ttl) + stp.Adv.Delta
+			}
+			if d < 0 {
+				d = 0
+			}
+			before := now()
+			held := caches.Size(caches.OAuthJWTCache)
+			if d > 0 {
+				time.Sleep(time.Duration(d))
+				synctest.Wait() // let sweepers that woke at this instant finish
+			}
+			if caches.Size(caches.OAuthJWTCache) < held {
+				labels["cached JWT results swept on virtual time during a sleep"] = true
+			}
+			note("#%d sleep %v (%s)", si, time.Duration(d), stp.Adv.Kind)
+			for i, o := range c.Toks {
+				if off, ok := expOff[o.Exp]; ok && before <= int64(off) && now() > int64(off) {
+					labels["a token's exp is crossed by a sleep"] = true
+					if st[i].cached {
+						labels["a token's exp is crossed while its result is cached"] = true
+					}
+				}
+				if off, ok := nbfOff[o.Nbf]; ok && off > 0 && before < int64(off) && now() >= int64(off) {
+					labels["a token's nbf is crossed by a sleep"] = true
 				}
 			}
-			trace = append(trace, fmt.Sprintf("#%d purge %s", si, st.What))
+			if d >= int64(f.ttl) {
+				labels["sleep >= one cache TTL"] = true
+			}
 			continue
 		case "present":
+			t := now()
 			id := jtiOf(ti)
 			isRevoked := id != "" && revoked[id]
 			reason := staticReason(tk)
+			tReason, undecidedInstant := timeReason(tk, t)
+			if reason == "" {
+				reason = tReason
+			}
 			_, hit := caches.Find(caches.OAuthJWTCache, strs[ti])
 			cacheState := "miss"
 			if hit {
 				cacheState = "hit"
 			}
-			obs := f.present(strs[ti], st.Via)
-			trace = append(trace, fmt.Sprintf("#%d present tok%d via %s (cache %s, revoked %v) -> %s", si, ti, st.Via, cacheState, isRevoked, obs))
+			obs := f.present(strs[ti], stp.Via)
+			note("#%d present tok%d via %s (cache %s, revoked %v) -> %s", si, ti, stp.Via, cacheState, isRevoked, obs)
 
+			isClean := clean(tk)
+			s := &st[ti]
 			// classification
 			switch {
-			case reason != "":
-				labels["present: must-reject "+reasonClass(reason)] = true
-			case isRevoked:
-				labels["present: revoked, JWT cache "+cacheState+", via "+st.Via] = true
-				if !hit {
+			case reason == "expired" && isClean && !isRevoked:
+				when := "never accepted before"
+				if s.acceptedBeforeExp {
+					when = "accepted before exp"
 					nonTrivial = true
 				}
-			case clean(tk):
-				labels["present: valid "+tk.Alg+" aud="+tk.Aud] = true
+				labels["present after exp: "+when+", JWT cache "+cacheState] = true
+			case reason == "not yet valid (nbf)":
+				labels["present before nbf (nbf="+tk.Nbf+")"] = true
+				if isClean {
+					s.rejectedBeforeNbf = true
+				}
+			case reason != "":
+				labels["present: must-reject "+reasonClass(reason)] = true
+			case undecidedInstant:
+				labels["present exactly at exp / nbf (undecided) -> "+obs] = true
+			case isRevoked:
+				labels["present: revoked, JWT cache "+cacheState+", via "+stp.Via] = true
+				if !hit && isClean {
+					nonTrivial = true
+				}
+			case isClean:
+				labels["present: valid "+tk.Alg+" aud="+tk.Aud+" exp="+tk.Exp] = true
 				if id != "" && unrevoked[id] {
 					labels["present: valid again after un-revoke/flush, JWT cache "+cacheState] = true
+				}
+				if s.rejectedBeforeNbf {
+					labels["nbf crossing: presented before nbf, valid after, JWT cache "+cacheState] = true
+					nonTrivial = true
+				}
+				if s.lastAccept >= 0 && s.cached && !hit {
+					labels["TTL lapse: accepted earlier, cached result aged out without a purge"] = true
+				}
+				if s.lastAccept >= 0 && hit && t-s.lastAccept >= int64(f.ttl) {
+					labels["cached result still served one TTL or more after the first acceptance (kept alive by hits)"] = true
 				}
 			default:
 				labels["present: undecided by the statement (kid="+tk.Kid+" alg="+tk.Alg+" sub="+tk.Sub+") -> "+obs] = true
 			}
+			if obs == "accepted" {
+				if off, ok := expOff[tk.Exp]; ok && t < int64(off) {
+					s.acceptedBeforeExp = true
+				}
+				s.cached = true
+				s.lastAccept = t
+			} else if hit {
+				s.cached = false // ego evicts a cached result it no longer honours
+			}
 
 			fail := func(sig, exp string) {
 				fl := &vkit.Failure{Sig: sig,
-					Observed: fmt.Sprintf("step #%d: %s; token %s; history: %s", si, obs, describe(tk), strings.Join(trace, "; ")),
+					Observed: fmt.Sprintf("step #%d at t=%v (jwks/jwt cache ttl %v): %s; token %s; history: %s", si, time.Duration(t), f.ttl, obs, describe(tk), strings.Join(trace, "; ")),
 					Expected: exp}
 				// The history continues behind a failure: the first failure whose
 				// signature is not a recorded finding is the one reported, else
@@ -853,37 +1204,42 @@ func oracle(c Case) vkit.Outcome {
 			switch {
 			case obs != "accepted" && obs != "rejected":
 				fail("unexpected answer from the probe route ("+strings.SplitN(obs, ":", 2)[0]+")", "200 or 403")
+			case obs == "accepted" && (reason == "expired" || reason == "not yet valid (nbf)"):
+				fail("accepted: "+reason+", JWT result cache "+cacheState, "rejected ("+reason+")")
 			case obs == "accepted" && reason != "":
 				fail("accepted: "+reason, "rejected ("+reason+")")
+			case undecidedInstant:
+				// either
 			case obs == "accepted" && isRevoked:
 				fail("accepted although jti revoked: JWT result cache "+cacheState, "rejected: the jti is on the revocation list at that moment")
-			case obs == "rejected" && reason == "" && !isRevoked && clean(tk):
+			case obs == "rejected" && reason == "" && !isRevoked && isClean:
 				state := "never revoked"
 				if id != "" && unrevoked[id] {
 					state = "after un-revoke/flush"
 				}
-				// never revoked: the cause lies in the token's shape; after an
-				// un-revoke or flush: in the revocation state, whatever the shape
+				// never revoked: the cause lies in the token's shape or the
+				// clock; after an un-revoke or flush: in the revocation state
 				shape := fmt.Sprintf(" alg=%s aud=%s nbf=%s", tk.Alg, tk.Aud, tk.Nbf)
 				if state != "never revoked" {
 					shape = ""
 				}
+				if s.rejectedBeforeNbf {
+					state += ", nbf passed"
+				}
 				fail(fmt.Sprintf("rejected a valid token:%s (%s, JWT cache %s)", shape, state, cacheState),
-					"accepted: signed by a published key, iss/aud match, not expired, jti not revoked")
+					"accepted: signed by a published key, iss/aud match, not expired, nbf passed, jti not revoked")
 			}
 			continue
 		}
 		if why := syncCheck(); why != "" {
 			out.Inconclusive = why
-			out.Fail = firstFail
-			return out
+			return finish()
 		}
 	}
-
-	out.NonTrivial = nonTrivial
-	out.Labels = labelList(labels, nonTrivial)
-	out.Fail = firstFail
-	return out
+	if f.sweeperOutside {
+		labels["the JWT cache sweeper runs outside the bubble (no ageing of cached results)"] = true
+	}
+	return finish()
 }
 
 // knownSig holds the signatures of the recorded findings of this property
@@ -922,7 +1278,7 @@ func labelList(labels map[string]bool, nonTrivial bool) []string {
 		l = append(l, k)
 	}
 	if nonTrivial {
-		l = append(l, "non-trivial: presentation of an otherwise valid token after revocation with the JWT cache cold")
+		l = append(l, "non-trivial: revoked+cold cache, or re-presented after exp, or re-presented after nbf")
 	}
 	sort.Strings(l)
 	return l
@@ -981,6 +1337,31 @@ func fixedCases() []Case {
 	for _, x := range nbfAll {
 		cs = append(cs, Case{Toks: []Tok{with(ec, func(t *Tok) { t.Nbf = x })}, Steps: []Step{p(0, "direct"), p(0, "router")}})
 	}
+	// time: the same token before and after exp, with the cached result still
+	// there (hit), aged out (miss after TTL + sweep) or purged; nbf crossing
+	sl := func(kind string, delta time.Duration) Step {
+		return Step{Op: "sleep", Tok: 0, Adv: &Adv{Kind: kind, Delta: int64(delta)}}
+	}
+	for _, life := range []string{"20s", "90s", "soon", "30m", "future", "2h"} {
+		tk := with(good, func(t *Tok) { t.Exp = life })
+		cs = append(cs,
+			Case{Toks: []Tok{tk}, Steps: []Step{p(0, "direct"), sl("exp", -time.Second), p(0, "direct"), sl("exp", -1), p(0, "router"), sl("exp", 0), p(0, "direct"),
+				sl("exp", 1), p(0, "direct"), p(0, "router"), sl("exp", time.Second), p(0, "direct"), sl("exp", 61*time.Second), p(0, "router")}},
+			Case{Toks: []Tok{with(tk, func(t *Tok) { t.Key, t.Alg = "ec-pub", "ES256" })}, Steps: []Step{p(0, "router"), sl("exp", time.Second), p(0, "router"), {Op: "purge", What: "jwt"}, p(0, "direct")}},
+		)
+	}
+	for _, n := range []string{"30s", "soon", "10m", "future"} {
+		tk := with(ec, func(t *Tok) { t.Nbf = n; t.Exp = "2h" })
+		cs = append(cs, Case{Toks: []Tok{tk}, Steps: []Step{p(0, "direct"), sl("nbf", -time.Second), p(0, "router"), sl("nbf", -1), p(0, "direct"), sl("nbf", 0), p(0, "direct"),
+			sl("nbf", 1), p(0, "direct"), p(0, "router"), sl("nbf", time.Second), p(0, "direct")}})
+	}
+	far := with(good, func(t *Tok) { t.Exp = "far" })
+	cs = append(cs,
+		Case{Toks: []Tok{far}, Steps: []Step{p(0, "direct"), sl("ttl", -time.Second), p(0, "direct"), sl("ttl", time.Second), p(0, "direct"), sl("ttl", 61*time.Second), p(0, "router"),
+			{Op: "revoke", Tok: 0, Via: "direct"}, sl("ttl", 61*time.Second), p(0, "direct"), p(0, "router")}},
+		Case{Toks: []Tok{far, with(ec, func(t *Tok) { t.Kid = "unknown"; t.Exp = "far" })}, Steps: []Step{p(0, "direct"), p(1, "direct"), {Op: "sleep", Adv: &Adv{Kind: "abs", Ns: int64(29 * time.Second)}}, p(1, "direct"),
+			{Op: "sleep", Adv: &Adv{Kind: "abs", Ns: int64(2 * time.Second)}}, p(1, "router"), sl("ttl", time.Second), p(0, "router"), p(1, "direct")}},
+	)
 	return cs
 }
 
@@ -989,19 +1370,20 @@ func fixedCases() []Case {
 func TestC22(t *testing.T) {
 	loadKnownSigs()
 	fx = setup(t)
-	defer fx.idp.Close()
 	vkit.Run(t, vkit.Spec[Case]{
 		ID:    "C22",
 		Level: "exploration",
-		Rule: "1..3 JWTs drawn as class vectors {signing key (published RSA/EC, unpublished RSA/EC) x alg (RS256/384/512, ES256, PS256, none, HS256 keyed with the public key in 3 encodings, header/signature alg mismatch) x kid (own, other published, unknown, missing, empty) x corruption (signature bit, truncation, payload swap) x iss (5) x aud (10: string, list, missing, ...) x exp (6) x nbf (4) x jti (none, a, b) x sub}, " +
-			"mostly valid with 0..2 flaws, and a history of 1..10 steps {present via oauth.ValidateJWT or via router.ServeHTTP on an .Authentication(true) route; revoke / un-revoke the jti and flush the list via the admin REST endpoints or the tokens package; purge the JWT result cache, the blacklist cache, or all caches}, against a loopback OIDC provider, real time. " +
+		Rule: "1..3 JWTs drawn as class vectors {signing key (published RSA/EC, unpublished RSA/EC) x alg (RS256/384/512, ES256, PS256, none, HS256 keyed with the public key in 3 encodings, header/signature alg mismatch) x kid (own, other published, unknown, missing, empty) x corruption (signature bit, truncation, payload swap) x iss (5) x aud (10: string, list, missing, ...) x exp (lifetime 20s, 90s, 5m, 30m, 1h, 2h, 10y; past; missing) x nbf (none, past, +30s, +60s, +10m, +1h) x jti (none, a, b) x sub}, " +
+			"mostly valid with 0..2 flaws, and a history of 1..12 steps {present via oauth.ValidateJWT or via router.ServeHTTP on an .Authentication(true) route; revoke / un-revoke the jti and flush the list via the admin REST endpoints or the tokens package; purge the JWT result cache, the blacklist cache, or all caches; " +
+			"advance virtual time by fixed steps, to a token's exp or nbf -1s/-1ns/0/+1ns/+1s/+61s, by one JWKS/JWT cache TTL -1s/+1s/+61s, or arbitrarily up to 5h}, executed in a testing/synctest bubble against an in-memory OIDC provider, with ego.server.oauth.jwks.cache.ttl = 1h on even shards and 90s on odd shards. " +
 			"Oracle: three-valued model of the statement (must reject / must accept / undecided) at every presentation. " +
-			"Non-trivial: an otherwise valid token whose jti is on the revocation list is presented while the JWT result cache holds no entry for it (never seen, or purged); distinct by case.",
+			"Non-trivial: (a) an otherwise valid token whose jti is on the revocation list is presented while the JWT result cache holds no entry for it, or (b) a token that was accepted before its exp is presented again after it, or (c) a token that was presented before its nbf is presented again after it; distinct by case.",
 		Assumptions: []string{
-			"provider and audience settings are fixed for the process; the JWKS is constant; every exp/nbf is >= 60 s away from now so no verdict depends on the clock",
-			"a valid token (published key, RS256/384/512 or ES256, matching kid, iss, aud, exp, no revocation, non-empty sub) must be accepted (docs/SERVER.md); tokens without kid, with the other key's kid, PS256 or without sub are undecided",
+			"provider, audience and JWKS cache TTL are fixed for the process (oauth.Initialize runs once); the TTL is 1h on even shards, 90s on odd shards; the JWKS is constant",
+			"the validator's leeway is 0 (jwt.go passes no jwt.WithLeeway); exactly at exp or nbf either answer is accepted; exp/nbf are whole seconds",
+			"a valid token (published key, RS256/384/512 or ES256, matching kid, iss, aud, t < exp, nbf passed, no revocation, non-empty sub) must be accepted (docs/SERVER.md); tokens without kid, with the other key's kid, PS256 or without sub are undecided",
 			"nbf in the future is a must-reject (docs/internals/OAUTH.md, RFC 7519) although the statement does not list it",
-			"the JWKS key cache cannot be purged from outside the package; time-dependent steps are expressed as explicit purges of the JWT result cache and the blacklist cache",
+			"every case starts from the state right after start-up: JWT result cache created with the configured lifetime (caches.SetExpiration, as oauth.Initialize does), JWKS cache stale",
 			"the model's revocation list follows the operations and is compared with tokens.List() after every mutating step (disagreement = inconclusive)",
 		},
 		Gen:      genCase,
@@ -1009,5 +1391,8 @@ func TestC22(t *testing.T) {
 		Fixed:    fixedCases,
 		Quick:    400,
 		Thorough: 6000,
+		Extra: func() map[string]any {
+			return map[string]any{"jwks_cache_ttl": fx.ttl.String(), "jwks_fetches": fx.jwksHits, "jwt_sweeper_outside_bubble": fx.sweeperOutside}
+		},
 	})
 }
